@@ -23,7 +23,23 @@
    names) are their UTF-8 byte strings: Rust `String` equality is byte equality.  Fixed-width
    integers are Z, floats / doubles are their IEEE-754 bit patterns (N), so NaN payloads are
    ordinary values.  Rust's typed fields carry their ranges implicitly; here the ranges are part
-   of [wf] and the encoders wrap (two's complement) outside them, which Rust cannot reach. *)
+   of [wf] and the encoders wrap (two's complement) outside them, which Rust cannot reach.
+
+   State of /repo this model follows: pinned commit + fix b428ba8 (a zero-length last element of
+   a vint-prefixed vector is an empty slice, see [deser_vec_var]).  Open findings modelled as they
+   are: F2 (size-less sub-writers of vectors cannot express null / unset / empty, [ser_cell_ws],
+   class [vector_hole]) and F14 (a zero-field tuple value is written as a zero-length cell, class
+   [empty_tuple_inside]).
+
+   Building on this file (C17, C08).  All recursion is structural on [ctype]; the tuple / UDT loops
+   are nested [fix]es, so proofs go through the custom induction principle [ctype_ind'] and the
+   top-level twins with unfolding equations in Proofs/Cql_proofs.v (sections 1-2: [ser_value_udt],
+   [ser_value_tuple], [deser_value_eq], [pad_tuple], [wf_val_udt], ...).  Useful entry points:
+   [ser_value] / [ser_cell] (errors are the leaf kinds of the real nested errors, in the order the
+   code raises them), [deser_value] on an exact slice / [deser_cell] on a prefix, [wf] ("value of
+   the type"), [size_only], [roundtrip_value], [conforms_value], [ser_total_value],
+   [deser_value_no_oof].  The text form of types / values shared by ocaml/c01/driver.ml and
+   harness/src/c01_text.rs is reusable as is. *)
 From SV Require Import Base.Prelude Base.Bytes Model.Vint.
 Open Scope N_scope.
 
@@ -826,6 +842,14 @@ Definition wf_cell (t : ctype) (c : cell) : bool :=
   | CNull | CUnset => wf_type t
   end.
 
+(* the only reasons for which the serialiser may refuse a value of the type: a cell or a
+   collection that exceeds the i32 limits of the wire format *)
+Definition size_only (r : sres) : Prop :=
+  match r with
+  | Ok _ => True
+  | Err e => e = SE_SizeOverflow \/ e = SE_TooManyElements
+  end.
+
 (* --- known classes: shapes on which the code, modelled as it is, does not round-trip --- *)
 
 Definition is_cempty (v : cval) : bool := match v with CEmpty => true | _ => false end.
@@ -892,14 +916,17 @@ Definition kc_any (t : ctype) (v : cval) : bool :=
   kc_vector_hole t v || kc_empty_tuple t v.
 
 Definition known_class (t : ctype) (v : cval) : bool := exists_sub kc_any t v.
+(* the two classes separately (known_class = their disjunction: lemma known_class_split) *)
+Definition vector_hole (t : ctype) (v : cval) : bool := exists_sub kc_vector_hole t v.
+Definition empty_tuple_inside (t : ctype) (v : cval) : bool := exists_sub kc_empty_tuple t v.
 Definition known_class_cell (t : ctype) (c : cell) : bool :=
   match c with CVal v => known_class t v | _ => false end.
 
 (* which class, for the driver's tag (A before B) *)
 Inductive kclass := KA_vector_null_element | KB_empty_tuple.
 Definition known_class_of (t : ctype) (v : cval) : option kclass :=
-  if exists_sub kc_vector_hole t v then Some KA_vector_null_element
-  else if exists_sub kc_empty_tuple t v then Some KB_empty_tuple
+  if vector_hole t v then Some KA_vector_null_element
+  else if empty_tuple_inside t v then Some KB_empty_tuple
   else None.
 
 (* typed vector carriers (ser_vector_cells): a null / unset / Empty element *)
